@@ -7,7 +7,7 @@ from vlib import render as RR
 
 ID = "C08"
 # look-alikes of prelude names (vlib/defs.py HOSTILE) this check's derives are immune to on the unchanged tree
-HOSTILE_OK = ['Default', 'From', 'Into', 'Result', 'Ok', 'AsRef', 'Send', 'PhantomData', 'IterGet', 'm_matches', 'm_assert', 'm_fmt', 'c_binders']
+HOSTILE_OK = ['Default', 'From', 'Into', 'Result', 'Ok', 'AsRef', 'Send', 'PhantomData', 'IterGet', 'm_matches', 'm_assert', 'm_fmt', 'c_binders', 'ByValue']
 PROP_FILE = "Props/C08.v"
 RULE = ("field-less enums (deriving all four: EnumCount, VariantNames, VariantArray, EnumIter) and mixed enums (the three that "
         "accept payloads), 0-12 variants, explicit discriminants, naming attributes (serialize / to_string / serialize_all / "
